@@ -121,7 +121,7 @@ namespace FM
 		Channel4* csmch;
 		
 
-		static  uint32 lfotable[8];
+		uint32 lfotable[8];	// per instance: depends on the clock/rate ratio
 	
 	private:
 		void	TimerA();
